@@ -411,6 +411,29 @@ pub fn run(rec: &mut Rec, rng: &mut Rng, thorough: bool) {
         lines.push(b"Expect: 100-continue".to_vec());
         block_case(rec, rng, &lines, "many-lines");
     }
+    // blocks as the heads of successive requests on one connection (rejected ones in between)
+    {
+        let fatal: [&[u8]; 5] = [b"no colon here", b"Content-Length: x", b"Accept-Encoding: identity;q=0", b"X-Bad: \xff\xfe", b"Content-Length: -1"];
+        let carried: [&[u8]; 7] = [b"Accept: text/plain", b"Content-Length: 5", b"Expect: 100-continue", b"Transfer-Encoding: chunked",
+            b"X-Left-Over: 1", b"Accept-Encoding: gzip", b"Content-Type: text/plain"];
+        for f in fatal {
+            for c in carried {
+                for pos in 0..2 {
+                    let first: Vec<Vec<u8>> = if pos == 0 { vec![c.to_vec(), f.to_vec()] } else { vec![c.to_vec(), b"X-Mid: m".to_vec(), f.to_vec(), c.to_vec()] };
+                    blocks_on_one_connection(rec, rng, &[first.clone(), vec![], vec![b"X-Own: 2".to_vec()]], "conn-after-rejected-head");
+                    blocks_on_one_connection(rec, rng, &[vec![c.to_vec()], first, vec![b"Accept: application/json".to_vec()], vec![]], "conn-after-rejected-head");
+                }
+            }
+        }
+        for _ in 0..(if thorough { 6000 } else { 400 }) {
+            let nb = 2 + rng.below(4);
+            let blocks: Vec<Vec<Vec<u8>>> = (0..nb).map(|_| {
+                let nl = rng.below(5);
+                (0..nl).map(|_| gen::header_line(rng, true)).filter(|l| !l.is_empty() && !l.contains(&b'\n') && !l.contains(&b'\r') && l.len() < 200).collect()
+            }).collect();
+            blocks_on_one_connection(rec, rng, &blocks, "conn-random-heads");
+        }
+    }
     // random blocks of 0..6 lines
     let n = if thorough { 150000 } else { 6000 };
     for k in 0..n {
@@ -426,6 +449,78 @@ pub fn run(rec: &mut Rec, rng: &mut Rng, thorough: bool) {
         block_case(rec, rng, &lines, "random");
         if k % 3 == 0 {
             name_case_oracle(rec, rng);
+        }
+    }
+}
+
+/// Several header blocks, one after the other, as the heads of requests on ONE connection — accepted and rejected
+/// ones mixed: what each delivered request shows is `Headers::try_from` of ITS OWN block (the rules start from
+/// default `Headers` for every request; nothing of an earlier head, accepted or rejected, is carried over), and a
+/// head is rejected exactly when its block is.
+pub fn blocks_on_one_connection(rec: &mut Rec, rng: &mut Rng, blocks: &[Vec<Vec<u8>>], descr: &str) {
+    use crate::conn::ConnDriver;
+    rec.case(descr);
+    let mut d = ConnDriver::new(rec, 1 << 20);
+    for (k, lines) in blocks.iter().enumerate() {
+        if d.conn.is_none() {
+            break;
+        }
+        let mut block = Vec::new();
+        for l in lines {
+            block.extend_from_slice(l);
+            block.extend_from_slice(b"\r\n");
+        }
+        block.extend_from_slice(b"\r\n");
+        let expected = Headers::try_from(&block[..]);
+        let mut head = format!("PUT /h{} HTTP/1.{}\r\n", k, k % 2).into_bytes();
+        head.extend_from_slice(&block);
+        if head.len() > 1000 {
+            break;
+        }
+        let results = d.recv(rec, &head, 0);
+        let rejected = results.iter().any(|t| t.starts_with("parse("));
+        let mut log = d.log.clone();
+        log.push(format!("hdrblock {}", hx(&block)));
+        match expected {
+            Err(e) => {
+                rec.count("conn-head:rejected");
+                rec.nontrivial();
+                if !rejected {
+                    rec.oracle_fail("C15", &format!("head {} of the connection: its block is rejected by the header rules ({}) but the connection accepted it", k, show_req_err(&e)), &log);
+                    break;
+                }
+            }
+            Ok(h) => {
+                if rejected && results.iter().any(|t| t.starts_with("parse(SizeLimitExceeded")) && h.content_length() as usize > (1 << 20) {
+                    continue; // the connection's own payload limit (C04), not a header rule
+                }
+                if rejected {
+                    rec.oracle_fail("C15", &format!("head {} of the connection: its block is accepted by the header rules as {} but the connection rejected it: {:?}", k, show_headers(&h), results), &log);
+                    continue;
+                }
+                let cl = h.content_length() as usize;
+                if cl > 64 {
+                    break; // a body this long is C04's business
+                }
+                if cl > 0 {
+                    let body = vec![b'b'; cl];
+                    d.recv(rec, &body, 0);
+                }
+                rec.count("conn-head:accepted");
+                match d.pop(rec) {
+                    None => {
+                        rec.oracle_fail("C15", &format!("head {} of the connection was accepted but no request was delivered", k), &d.log.clone());
+                        break;
+                    }
+                    Some(_) => {
+                        let got = d.held.last().map(|r| show_headers(&r.headers)).unwrap_or_default();
+                        if got != show_headers(&h) {
+                            rec.oracle_fail("C15", &format!("request {} of the connection shows headers {} — its own block parses to {}", k, got, show_headers(&h)), &log);
+                            break;
+                        }
+                    }
+                }
+            }
         }
     }
 }
